@@ -141,7 +141,7 @@ func runC04(c *Ctx) {
 		}
 		c.R.OK("R04.4", key, p.Pos(mr.Range.Pos()), d)
 	}
-	c.R.RequireMin("R04.4", "map ranges in the Match tree", len(oa.Ranges), 7)
+	c.R.RequireMin("R04.4", "map ranges in the Match tree", len(oa.Ranges), 3)
 	for _, s := range oa.Sorts {
 		key := "sort in " + core.ShortFn(s.Fn) + " of " + describeSorted(s)
 		d := ""
@@ -155,7 +155,7 @@ func runC04(c *Ctx) {
 			c.R.Info("R04.4", key+": comparator is not total", p.Pos(s.Call.Pos()), s.Why+"; "+d)
 		}
 	}
-	c.R.RequireMin("R04.4", "sort sites in the Match tree", len(oa.Sorts), 3)
+	c.R.RequireMin("R04.4", "sort sites in the Match tree", len(oa.Sorts), 1)
 	for _, v := range oa.Viol {
 		c.R.Fail("R04.4", v.Construct, p.Pos(v.Pos), "map iteration order can reach the result: "+v.Detail)
 	}
@@ -431,7 +431,7 @@ func checkTokenIDUses(c *Ctx, p *core.Prog) {
 	if bad == 0 {
 		c.R.OK("R04.6", "token ids are only compared for equality, used as map keys, or converted to diff runes", "-", fmt.Sprintf("%d operations on tokenID values inspected", n))
 	}
-	c.R.RequireMin("R04.6", "operations on tokenID values", n, 3)
+	c.R.RequireMin("R04.6", "operations on tokenID values", n, 1)
 }
 
 // checkTraceNonInterference: R04.3 (E3).
@@ -488,7 +488,7 @@ func checkTraceNonInterference(c *Ctx, p *core.Prog, explored []*ssa.Function) {
 		c.R.Fail("R04.3", f.Construct, p.Pos(f.Pos), f.Detail)
 	}
 	c.R.Count("R04.3:functions", nf)
-	c.R.RequireMin("R04.3", "trace-guarded regions in the Match tree", res.Guards, 10)
+	c.R.RequireMin("R04.3", "trace-guarded regions in the Match tree", res.Guards, 4)
 }
 
 // checkLossyInterning: R04.7. On the Match path the target's words are interned through a
